@@ -43,7 +43,14 @@ def make_scenarios(ctx, count):
         bridged = rng.random() < 0.35
         frames = [G.f_discover(rng, net, m=m, tos=0, bridged=bridged)]
         kinds = []
+        mtu_changes = {}
+        mtu0 = mtu
         for j in range(rng.randint(3, 6)):
+            if j > 0 and i >= len(plan) and rng.random() < 0.15:
+                # the link's MTU changes while the interface lives on: how many descriptors an Emit may carry is decided by
+                # the MTU at the time it arrives
+                mtu = rng.choice([576, 1500, 9000, G.pick_mtu(rng)])
+                mtu_changes[len(frames)] = mtu
             for _ in range(rng.randint(0, 3)):
                 frames.append(filler(rng, net, m, bridged))
             r = rng.random()
@@ -73,10 +80,11 @@ def make_scenarios(ctx, count):
                 struct.pack_into(">H", b, 32, rng.choice([carried + 1, cap + 1, cap + 2, 0xFFFF, 0x8000, 0x4000, 1000, rng.choice(wrap16),
                                                           rng.randint(cap + 1, 0xFFFF)]) & 0xFFFF)
                 frames.append(bytes(b))
-        s = H.Scenario("e%d" % i, meta=dict(frames=frames, own=cfg["mac"], mtu=mtu, rxseed=cfg["rxseed"]))
+        s = H.Scenario("e%d" % i, meta=dict(frames=frames, own=cfg["mac"], mtu=mtu0, rxseed=cfg["rxseed"], mtu_changes=mtu_changes))
         s.iface(0, **H.iface_kw(cfg)).glob(**G.global_kw(G.rand_global(rng, icon_size=100)))
         s.add("OPT txcap=3000")
-        s.frames(0, frames, rng if i % 2 else None, p_gap=0.25, base=True)
+        s.frames(0, frames, rng if i % 2 else None, p_gap=0.25, base=True,
+                 inserts={k: ["MTU 0 %d %d" % (v, cfg["rxseed"])] for k, v in mtu_changes.items()})
         scns.append(s)
     return scns
 
@@ -109,6 +117,10 @@ def monitor(scn, sobj, rep, sf, ck):
         if idx >= len(frames):
             break
         fr = frames[idx]
+        if idx in sobj.meta.get("mtu_changes", {}):
+            mtu = sobj.meta["mtu_changes"][idx]
+            cap = G.cap_emit(mtu)
+            rep.count("mtu_changed_mid_history")
         was = (mm.state, mm.mapper)
         mm.step(fr)
         if (mm.state, mm.mapper) != was and not (was[0] == MapperModel.SOFT and mm.state == MapperModel.ACTIVE and was[1] == mm.mapper):
@@ -233,3 +245,4 @@ def run(ctx):
     rep.need("inflated_emits", c.get("inflated_emits", 0), 100)
     rep.need("emit_n:cap", c.get("emit_n:cap", 0), 5)
     rep.need("clock_gaps_between_frames", rep.counters.get("clock_gaps_between_frames", 0), 200)
+    rep.need("mtu_changed_mid_history", c.get("mtu_changed_mid_history", 0), 20)
